@@ -152,8 +152,14 @@ fn run_case(lines: &[String], out: &mut impl Write) {
                 // sources with lifecycle hooks: `lifesynth` returns a synthetic event from every before_sleep,
                 // `lifequiet` never does
                 "lifesynth" | "lifequiet" => {
-                    h.insert_source(LifeSrc { synth: w[1] == "lifesynth", token: None }, |_, _, _| {}).unwrap();
+                    h.insert_source(LifeSrc { synth: w[1] == "lifesynth", token: None, slow: Duration::ZERO }, |_, _, _| {}).unwrap();
                     has_synth |= w[1] == "lifesynth";
+                }
+                // lifeslow MS: a quiet lifecycle source whose before_sleep hook takes MS ms: the wait that follows is
+                // computed from the clock as it stands after the hooks
+                "lifeslow" => {
+                    let ms: u64 = w[2].parse().unwrap();
+                    h.insert_source(LifeSrc { synth: false, token: None, slow: Duration::from_millis(ms) }, |_, _, _| {}).unwrap();
                 }
                 // a bounded channel that is exactly full when the first dispatch processes it: the second dispatch finds an
                 // idle source (the channel must not have woken itself up)
@@ -240,6 +246,7 @@ fn run_case(lines: &[String], out: &mut impl Write) {
 struct LifeSrc {
     synth: bool,
     token: Option<calloop::Token>,
+    slow: Duration,
 }
 
 impl calloop::EventSource for LifeSrc {
@@ -269,6 +276,9 @@ impl calloop::EventSource for LifeSrc {
         Ok(())
     }
     fn before_sleep(&mut self) -> calloop::Result<Option<(calloop::Readiness, calloop::Token)>> {
+        if !self.slow.is_zero() {
+            std::thread::sleep(self.slow);
+        }
         Ok(match (self.synth, self.token) {
             (true, Some(t)) => Some((calloop::Readiness { readable: true, writable: false, error: false }, t)),
             _ => None,
